@@ -203,7 +203,7 @@ func c12PdfCase(i int, raw []byte) Result {
 		if c.TraceMod > 0 && (i*31+len(view))%c.TraceMod == 0 {
 			res.Events = append(res.Events, c12Events(&c, d.r, obs, c12Cfg{name: view, api: view}, "direct")...)
 		}
-		if f := c12Compare(&c, d.r, obs, view); f != nil {
+		if f := c12Compare(&c, d.r, obs, view, 0); f != nil {
 			x := bad(view, f.clause, fmt.Sprintf("tabula.Open(pdf) %s: %s; the PDF lines are %q", view, f.what, d.lines), obs)
 			return &x
 		}
@@ -224,7 +224,7 @@ func c12PdfCase(i int, raw []byte) Result {
 	for _, pg := range doc.Pages {
 		for j, el := range pg.Elements {
 			texts = append(texts, c12ElementText(el))
-			obs = append(obs, c12Obs{ID: fmt.Sprintf("p%d-e%d", pg.Number, j), Ps: pg.Number, Pe: pg.Number, Path: []int{}})
+			obs = append(obs, c12Obs{ID: fmt.Sprintf("p%d-e%d", pg.Number, j), Ps: pg.Number, Pe: pg.Number, Path: []int{}, Title: -1})
 		}
 	}
 	units := c12ScanTexts(texts)
@@ -258,7 +258,7 @@ func c12PdfCase(i int, raw []byte) Result {
 	obs = make([]c12Obs, len(cc.Chunks))
 	for k, ch := range cc.Chunks {
 		o := c12Obs{Units: units[k], Index: ch.Metadata.ChunkIndex, ID: ch.ID, Ps: ch.Metadata.PageStart, Pe: ch.Metadata.PageEnd,
-			Total: ch.Metadata.TotalChunks, Path: []int{}}
+			Total: ch.Metadata.TotalChunks, Path: []int{}, Title: -1}
 		for _, t := range ch.Metadata.SectionPath {
 			el := c12TitleEl(d.r, t)
 			o.Path = append(o.Path, el)
@@ -292,7 +292,7 @@ func c12PdfCase(i int, raw []byte) Result {
 				hi = e.Pg
 			}
 		}
-		obs = []c12Obs{{Units: c12ScanTexts([]string{md})[0], Index: 0, ID: "markdown", Ps: lo, Pe: hi, Total: 1, Path: []int{}}}
+		obs = []c12Obs{{Units: c12ScanTexts([]string{md})[0], Index: 0, ID: "markdown", Ps: lo, Pe: hi, Total: 1, Path: []int{}, Title: -1}}
 	}
 	if x := judge("pdf-markdown", obs); x != nil {
 		return *x
